@@ -118,6 +118,7 @@ def showStep : Step → String
   | .xFresh => "xFresh"
   | .xFitted => "xFitted"
   | .xFittedTerm => "xFittedTerm"
+  | .xFittedWidth => "xFittedWidth"
   | .sampleAtXFitted => "sampleAtXFitted"
   | .compile => "compile"
   | .lenXY => "lenXY"
@@ -125,7 +126,6 @@ def showStep : Step → String
   | .vecFinite .exposure => "exposureFinite"
   | .lenEq _ _ => "lenEq"
   | .prodFinite => "prodFinite"
-  | .broadcastXY => "broadcastXY"
 
 /-- label of the first failing step (evidence only; the verdict uses `outcome`) -/
 def firstFail (m : Model) (a : Args) (l : List Step) : String :=
